@@ -105,6 +105,12 @@ def run(ctx: Ctx, replay: str | None) -> None:
             report_term(ctx, p["record"], H.replay_term(p["record"]))
         elif p["kind"] == "dict":
             report_dict(ctx, p["record"], _replay_dict((p["record"], p["seed"], p["idx"])), p["seed"], p["idx"])
+        elif p["kind"] == "lca":
+            from torchjd.autojac._transform.tensor_dict import _least_common_ancestor
+            q = p["pair"]
+            got = H.CLASS_TO_TYPE[_least_common_ancestor(H.td_class(q["first"]), H.td_class(q["second"])).__name__]
+            if got != q["join"]:
+                ctx.violation(rec["key"], f"least common ancestor of {q['first']} and {q['second']} is {got}, not {q['join']}", p)
         else:
             validate_episodes(ctx, [p["episode"] | {"ep": 1}])
         return
@@ -152,14 +158,15 @@ def run(ctx: Ctx, replay: str | None) -> None:
     r1 = run_tlc("MC_Transforms", cfg_text=cfg1, workers=workers, seed=ctx.seed, timeout=1500)
     if r1.violated:
         raise MachineryError(f"MC_Transforms (depth 1): {r1.violated} violated in the model\n{r1.cex[:1500]}")
+    ctx.extra["tlc_depth1_run"] = r1.stats()
     d1 = r1.prints.get("TERM", [])
     if len(d1) != r1.distinct:
         raise MachineryError(f"depth-1 export incomplete: {len(d1)} lines for {r1.distinct} states")
-    pool_mod = 12 if quick else 8
+    pool_mod = 12 if quick else 10
     cands = sorted((t for t in d1 if t["ok"] and t["depth"] == 1), key=lambda t: json.dumps(t["term"], sort_keys=True))
     pool = [t["term"] for t in cands if t["hash"] % pool_mod == ctx.seed % pool_mod]
-    mod1 = 12 if quick else 3
-    mod2 = 1000
+    mod1 = 12 if quick else 4
+    mod2 = 1500
     cfg2 = (base.replace("Mod1 = 12", f"Mod1 = {mod1}").replace("Pick1 = 0", f"Pick1 = {ctx.seed % mod1}")
             .replace("Mod2 = 1000", f"Mod2 = {mod2}").replace("Pick2 = 0", f"Pick2 = {ctx.seed % mod2}"))
     if not quick:
